@@ -50,6 +50,11 @@ def dual_choices(kind):
     return out
 
 
+def contains_take(pipe):
+    return any(op['op'] in ('take', 'first') or
+               (op['op'] == 'tee' and any(contains_take(b) for b in op['branches'])) for op in pipe)
+
+
 def gen_dual(rng, kind, length, tee_depth, in_branch=False):
     pipe = []
     after_take = False
@@ -64,6 +69,10 @@ def gen_dual(rng, kind, length, tee_depth, in_branch=False):
             join = rng.choice(['merge', 'zip', 'combine_latest'])
             pipe.append(G.op_tee(join, brs))
             kind = 'any' if join != 'merge' or len(set(kinds)) > 1 else kinds[0]
+            if any(contains_take(b) for b in brs):
+                # a nested tee_map whose branches end early may itself end early on a plain
+                # observable: the precondition about take/first applies behind it as well
+                after_take = True
             continue
         ch = dual_choices(kind)
         if in_branch and after_take:
